@@ -44,10 +44,22 @@ def junk(rng, n, hostile):
     return b"".join(out)[:n]
 
 
+# fragments that look like the beginning of a date/time but are none: they must pass through untouched
+NEAR = [b"12:xx", b"7:", b"12:", b"2000-", b":30", b"T12", b"1-2", b"--", b"20:", b"24:x"]
+
+
 def mk_line(rng, conv, kind):
     """-> (input line bytes without terminator, expected output line bytes, number of dates)"""
     if kind == "empty":
         return b"", b"", 0
+    if kind == "near":
+        # a date followed by blank + near-miss text: only the date may be touched
+        o = rng.randrange(cal.ORD_MIN + 400, cal.ORD_MAX - 1500)
+        nm = rng.choice(NEAR)
+        pre, post = rng.choice([b"", b"see ", b"("]), rng.choice([b"", b" end", b")"])
+        if rng.random() < .5:
+            return pre + cal.Day(o).ymd().encode() + b" " + nm + post, pre + conv(o) + b" " + nm + post, 1
+        return pre + b"at " + nm + b" on " + cal.Day(o).ymd().encode() + post, pre + b"at " + nm + b" on " + conv(o) + post, 1
     if kind == "junk":
         j = junk(rng, rng.choice([1, 3, 20, 80, 300]), rng.random() < .4)
         return j, j, 0
@@ -73,7 +85,7 @@ def mk_stream(rng, conv, shape, mode=None):
     lines = []
     if shape == "small":
         n = rng.choice([1, 2, 5, 20, 60])
-        kinds = [rng.choice(["date", "date", "two", "junk", "empty"]) for _ in range(n)]
+        kinds = [rng.choice(["date", "date", "two", "junk", "empty", "near"]) for _ in range(n)]
         lines = [mk_line(rng, conv, k) for k in kinds]
     elif shape == "chunk-edge":
         # lines whose ends, dates and CRs fall next to multiples of the 4096 byte read size
@@ -95,6 +107,17 @@ def mk_stream(rng, conv, shape, mode=None):
             if j and (j[-1:].isalnum() or j[-1:] in b"-+:/."):
                 j = j[:-1] + b" "
             lines.append((j + i, j + o, nd))
+    elif shape == "trunc-tail":
+        # the stream ends in the middle of a date, with and without full windows in front; equal-length lines make the
+        # window close exactly on a read boundary, so that stale bytes of earlier lines sit right behind the tail
+        n = rng.choice([0, 3, 16384, 16384, 32768, 20000])
+        w = rng.choice([23, 23, 16, 64])
+        body = (b"x" * (w - 10) + b"1 yyyyyyy")[:w - 1]
+        lines = [(body, body, 0)] * n
+        o = rng.randrange(cal.ORD_MIN + 400, cal.ORD_MAX - 1500)
+        full = cal.Day(o).ymd().encode()
+        cut = rng.choice([5, 7, 8, 9])
+        lines.append((b"tail " + full[:cut], None, 0))
     elif shape.startswith("huge-line"):
         # one line of several MiB behind a few short ones: the left-over moved to the front is larger than what was consumed
         pad = junk(rng, 3990, False)
@@ -138,9 +161,11 @@ def mk_stream(rng, conv, shape, mode=None):
         term = b"\r\n" if (crlf and not mixed) or (mixed and rng.random() < .5) else b"\n"
         inp.append(i + term)
         # a CR in front of the line feed is dropped by the reader (documented behaviour of the chunker)
-        if mode != "dgrep" or nd:
+        if o is None:
+            out = None
+        elif out is not None and (mode != "dgrep" or nd):
             out.append(o + b"\n")
-    final_nl = rng.random() < .75
+    final_nl = rng.random() < .75 and shape != "trunc-tail"
     if not final_nl and lines and not lines[-1][0]:
         # an empty last line without line feed is no line
         final_nl = True
@@ -151,7 +176,7 @@ def mk_stream(rng, conv, shape, mode=None):
             # a trailing CR without LF: keep the model simple, drop it
             data = data[:-1]
     info = dict(lines=len(lines), bytes=len(data), crlf=crlf or mixed, final_nl=final_nl, dates=sum(l[2] for l in lines))
-    return data, b"".join(out), info
+    return data, (b"".join(out) if out is not None else None), info
 
 
 def hazard_cuts(data, rng, limit=60):
@@ -254,13 +279,15 @@ def stream_task(task):
 
             def once(sched):
                 with open(path, "rb") as f:
-                    r = run(argv, stdin=f, env={"VERIF_READ_SCHED": sched}, cpu=120, wall=600, max_out=len(exp) * 2 + (1 << 20))
+                    r = run(argv, stdin=f, env={"VERIF_READ_SCHED": sched}, cpu=120, wall=600, max_out=len(data) * 2 + (1 << 20))
                 sh.procs += 1
                 return r
             base = once("all")
             if sh.check_san(base, "safety", "sed:%s:%s" % (mode, shape)):
                 continue
-            if base.out == exp:
+            if exp is None:
+                pass
+            elif base.out == exp:
                 sh.ok("transparent", cls0 + ("all",))
             else:
                 i = first_diff(base.out, exp)
@@ -272,6 +299,26 @@ def stream_task(task):
                         exp[max(0, i - 20):i + 20]),
                        dict(argv=argv, regen=regen, shape=shape), cls=cls0)
                 continue
+            if not info["final_nl"]:
+                # a missing final line feed changes nothing: the same stream with it must give the same output
+                fd2, path2 = tempfile.mkstemp(dir=TMP, prefix="c18n-")
+                try:
+                    os.write(fd2, data + b"\n")
+                    os.close(fd2)
+                    with open(path2, "rb") as f:
+                        r = run(argv, stdin=f, env={"VERIF_READ_SCHED": "all"}, cpu=120, wall=600, max_out=len(base.out) * 2 + (1 << 20))
+                    sh.procs += 1
+                finally:
+                    os.unlink(path2)
+                if not sh.check_san(r, "safety", "sed:%s:%s:final-lf" % (mode, shape)):
+                    if r.out == base.out and r.rc == base.rc:
+                        sh.ok("final-lf", cls0 + ("final-lf",))
+                    else:
+                        sh.bad("final-lf", "sed:%s:%s:final-lf" % (mode, shape),
+                               "%s, %d bytes: output without the final line feed differs from the output with it at byte %d "
+                               "(%d vs %d bytes, rc %s vs %s)" % (" ".join(argv0), len(data), first_diff(base.out, r.out), len(base.out),
+                                                                 len(r.out), base.rc, r.rc),
+                               dict(argv=argv, regen=regen, shape=shape), cls=cls0 + ("final-lf",))
             # the same bytes cut into other read() results
             scheds = ["rand:%d" % rng.randrange(1, 1 << 30), "k:%d" % rng.choice([1, 2, 3, 5, 7, 64, 1000, 4095])]
             if not big:
@@ -322,6 +369,8 @@ def main(tier, seed):
     tasks = []
     for i in range(48 if quick else 320):
         tasks.append((bindir, seed * 611953 + i, 12 if quick else 30, ["small", "small", "chunk-edge", "chunk-edge", "long-lines"]))
+    for i in range(8 if quick else 64):
+        tasks.append((bindir, seed * 17 + 400000 + i, 2, ["trunc-tail"]))
     for i in range(12 if quick else 96):
         tasks.append((bindir, seed * 7 + 100000 + i, 1, ["many-lines"]))
     for i in range(4 if quick else 32):
@@ -336,7 +385,7 @@ def main(tier, seed):
                 "line gets its line feed); 'chunking': the same stream under other read() schedules (1..4095 bytes per read, random "
                 "sizes, cuts next to line ends, CRs and multiples of 4096, and a real pipe written in pieces with pauses) gives the same bytes and status as the baseline; shapes: "
                 "small, line ends/dates at 4096 boundaries, lines of 1000..70000 bytes, 16383..40000 lines (line window), 17 MiB (byte "
-                "window), one line of 3..15 MiB, CRLF/mixed/no final line feed; ASan/UBSan on the exact-size window + probe H4 (window offsets ordered, "
+                "window), one line of 3..15 MiB, CRLF/mixed/no final line feed, a stream ending inside a date behind 0..32768 equal-length lines, near-miss fragments (12:xx, 7:, 2000-) next to dates; 'final-lf': a stream without final line feed gives the output of the same stream with it; ASan/UBSan on the exact-size window + probe H4 (window offsets ordered, "
                 "bytes out + held == bytes read) on every fill. distinct_nontrivial = distinct (tool, shape, line ends, final "
                 "line feed, schedule kind)")
     ctx.assumptions = ["no single line exceeds the 16 MiB window (such a line is handed out in pieces)", "dates are planted between non-alphanumeric neighbours (2012-01-02b is a business-day spelling)",
